@@ -19,10 +19,9 @@ ORACLE_RULE = ('built-in and synthetic mixtures and their relabelled twins (para
 ASSUMPTIONS = ['binary64 abstracted to reals (oracle tolerance 1e-8)']
 LEVEL_TEXT = ('Coq theorems for all parameter values: NRTL coefficients (one or two alphas) and the corrected UNIQUAC coefficients of the relabelled mixture are the exchanged pair; '
               'activity and partial-pressure functions in either basis commute with the relabelling; the composition of exchanged fluxes is the exchanged composition, the solver '
-              'distance is symmetric and the fixed-point loop commutes with the relabelling for mirror-image driving forces; separation factors invert. The formula as written '
+              'distance is symmetric and the fixed-point loop commutes with the relabelling for mirror-image driving forces; both ideal process loops commute with the relabelling (simulation by induction over the steps: same time, mass, temperature, heats; exchanged compositions, fluxes, permeances); separation factors invert. The formula as written '
               'for UNIQUAC gamma_2 is not symmetric (known finding F1, exact Delta in C04). Tie: the bridges of the paired per-component expressions (mixture, solver, process, curve families).')
-LEVEL_NOTE = ('partial: the symmetry of the whole ideal process loops is carried by the bridged, manifestly paired model step + the sampled twins, not by a separate Coq theorem; '
-              'known finding F1 reported for UNIQUAC')
+LEVEL_NOTE = 'known finding F1 reported for UNIQUAC (the symmetry theorems cover NRTL and the corrected UNIQUAC variant); binary64 abstracted to reals'
 TECHNIQUE = 'Coq proof (rewriting 1-(1-x), commutativity, induction on fuel) + symbolic-trace bridge lemmas + relabelled-twin search'
 DESIGN_REF = 'DESIGN.md section 6 C06'
 
